@@ -276,6 +276,19 @@ func (s *SwapStateMachine) exponentialBackoffAndJitter() {
 // Recover tries to continue from the current state, by doing the associated Action
 func (s *SwapStateMachine) Recover() (bool, error) {
 	log.Infof("[Swap:%s]: Recovering from state %s", s.SwapId.String(), s.Current)
+	if s.Current == Default {
+		// The node stopped between the very first store write and the first
+		// transition: nothing was sent or locked yet.  Without this the swap
+		// could never leave the default state (it has no action) and would
+		// hold its channel forever.
+		s.Previous = s.Current
+		s.setState(State_SwapCanceled)
+		s.Data.SetState(State_SwapCanceled)
+		if err := s.swapServices.swapStore.UpdateData(s); err != nil {
+			return false, err
+		}
+		return true, nil
+	}
 	state, ok := s.States[s.Current]
 	if !ok {
 		return false, fmt.Errorf("unknown state: %s for swap %s", s.Current, s.SwapId.String())
